@@ -171,11 +171,21 @@ namespace
 
    void run_case( const int rule, const std::string& s, const bool suppress )
    {
-      // exact-size heap buffer, no terminator
-      std::unique_ptr< char[] > buf( new char[ s.size() ] );
+      // the input is a window inside a larger heap buffer: no terminator, and the bytes BEHIND the logical end are
+      // adversarial (the rule's own alphabet: open / marker / close / line endings), so that any dependence on data
+      // outside [begin,end) changes the result; every case runs with two different tails which must agree
+      const std::string alpha = alphabet_of( rule );
+      std::string tail1 = alpha + std::string( alpha.rbegin(), alpha.rend() ) + alpha;
+      std::string tail2( tail1.rbegin(), tail1.rend() );
+      tail2 = std::string( 1, alpha.empty() ? 'x' : alpha[ alpha.size() / 2 ] ) + tail2;
+      std::unique_ptr< char[] > buf( new char[ s.size() + tail1.size() ] );
+      std::unique_ptr< char[] > buf2( new char[ s.size() + tail2.size() ] );
       if( !s.empty() ) {
          std::memcpy( buf.get(), s.data(), s.size() );
+         std::memcpy( buf2.get(), s.data(), s.size() );
       }
+      std::memcpy( buf.get() + s.size(), tail1.data(), tail1.size() );
+      std::memcpy( buf2.get() + s.size(), tail2.data(), tail2.size() );
       const char* b = buf.get();
       const char* e = b + s.size();
       const run4_t* tab = rule_tab( rule );
@@ -183,6 +193,13 @@ namespace
       for( int eo = 0; eo < 5; ++eo ) {
          out.clear();
          tab[ eo ]( b, e, out );
+         {
+            std::string out2;
+            tab[ eo ]( buf2.get(), buf2.get() + s.size(), out2 );
+            if( out2 != out ) {
+               out += " TAILDEP[" + out2 + "]";      // the result depends on bytes behind the end of the input
+            }
+         }
          ++n_total;
          if( suppress && ( out == TRIVIAL ) ) {
             ++n_trivial;
